@@ -21,7 +21,7 @@ the material of phase p is found in p when p is in the new phase set, else in th
 label (which must then be in the new set); an explicitly requested phase set is obtained
 exactly; the object is a `Stream` iff it has one phase ... see `_check_repr`.
 State oracle (every state): every held view reads the parent's current row, reports the
-parent's T and P and its own phase; every snapshot still holds what was saved; no stored zero.
+parent's T and P and its own phase; the mass view (imass / view.mass) equals the molar rows times MW; every snapshot still holds what was saved; no stored zero.
 """
 from __future__ import annotations
 import itertools
@@ -43,7 +43,7 @@ ASSUMPTIONS = [
     'as_stream on a stream with two or more non-empty phase classes must raise RuntimeError and leave the stream unchanged (documented rejection)',
     'values between alphabet points, more than 2 chemicals and sequences longer than the completed depth are not claimed (the property text says ~30; closure systems cover any length inside their cap)',
 ]
-TOLERANCES = {'flows': 0.0, 'T_P': 0.0}
+TOLERANCES = {'flows': 0.0, 'T_P': 0.0, 'mass_view_rel': 1e-12}
 
 T0, P0 = 300.0, 101325.0
 T_ALPH = (300.0, 350.0)
@@ -229,6 +229,7 @@ class C12(System):
             st.snaps.append((st.s.get_data(), st.m.copy()))
         if pair is not None:
             st.snaps.append((build_stream(pair).get_data(), model_of(pair)))
+        for v in self._mass_views(st): raise v
         return st
 
     # ---- canon -----------------------------------------------------------------------------------------------
@@ -346,8 +347,35 @@ class C12(System):
             st.views = {}
         st.m = new
 
-    # ---- one transition ---------------------------------------------------------------------------------------------
+    # ---- mass views: evaluated inside build/step (reading them creates memo entries, so it must be part of the replayed history)
+    def _mass_views(self, st):
+        s = st.s; m = st.m; out = []
+        op = st.last[0] if st.last else 'init'
+        # the mass view (memoised wrapper around the molar rows) reads the current rows
+        try:
+            MW = np.asarray(s.chemicals.MW, float)
+            mol = np.atleast_2d(np.asarray(s._imol.data.to_array(), float))
+            mass = np.atleast_2d(np.asarray(s.imass.data.to_array(), float))
+            if mass.shape != mol.shape or not np.allclose(mass, mol * MW, rtol=1e-12, atol=0.0):
+                out.append(Violation('mass-view-stale', f'after {st.last!r}: imass reads {mass.tolist()}, imol * MW is {(mol * MW).tolist()}',
+                                     match=dict(op=op, who='parent')))
+            for p, (v, epoch) in sorted(st.views.items()):
+                vm = np.asarray(v.mass.to_array(), float); want = np.asarray(m.rows[p], float) * MW
+                if not np.allclose(vm, want, rtol=1e-12, atol=0.0):
+                    out.append(Violation('mass-view-stale', f'after {st.last!r}: mass view of the phase view {p!r} (taken {epoch}) reads {vm.tolist()}, '
+                                         f'parent row * MW is {want.tolist()}', match=dict(op=op, who='view', view=epoch)))
+        except Exception as e:
+            out.append(Violation('unexpected-exception', f'after {st.last!r}: reading the mass view raised {type(e).__name__}: {e}',
+                                 match=dict(op='read-mass-view', exc=type(e).__name__)))
+        return out
+
     def step(self, st, a):
+        obs = self._step(st, a)
+        for v in self._mass_views(st): raise v
+        return obs
+
+    # ---- one transition ---------------------------------------------------------------------------------------------
+    def _step(self, st, a):
         tmo = fx.tmo()
         s = st.s; m = st.m; op = a[0]
         before = m.copy()
